@@ -99,6 +99,8 @@ def flow_classes():
             self._is_set = True
 
         def get_state(self, copy=True):
+            # like the in-place real integrators (lsoda, vern7/9 on Dense): with
+            # copy=False the caller gets the working buffer itself
             return self._t, (self._y.copy() if copy else self._y)
 
         def integrate(self, t, copy=True):
@@ -106,7 +108,8 @@ def flow_classes():
             cte = self.system.isconstant
             k = 0 if cte else self._k()
             F = hmat(hU(cte, k, int(t), int(self._t)))
-            self._y = _data.Dense(F @ self._y.to_array())
+            buf = self._y.as_ndarray()
+            buf[...] = F @ buf                      # the state buffer is REUSED in place
             self._t = t
             return self.get_state(copy)
 
@@ -145,6 +148,8 @@ def run_prop_impl(case):
     P = Propagator(solver, memoize=case["memoize"], tol=case["tol"])
     out = []
     info = []
+    alias = []
+    case["_alias"] = alias
     for (t, ts, k) in case["qs"]:
         F.log = []
         calls = []
@@ -164,6 +169,13 @@ def run_prop_impl(case):
             break
         finally:
             del P._compute
+        buf = P.solver._integrator._y.as_ndarray()
+        shared = [i for i, p in enumerate(P.props)
+                  if type(p.data).__name__ == "Dense" and np.shares_memory(p.data.as_ndarray(), buf)]
+        if type(U.data).__name__ == "Dense" and np.shares_memory(U.data.as_ndarray(), buf):
+            shared.append("answer")
+        if shared:
+            alias.append((len(out), shared))
         tl, yl = P.solver._integrator.get_state()
         out.append((decode(U.full()),
                     [int(x) if float(x).is_integer() else repr(x) for x in P.times],
@@ -282,8 +294,10 @@ def propagator_part(ctx, rng):
     impl = []
     infos = []
     dist = {"style": {}, "cte": {}, "tol": {}, "memoize": {}, "len": {}}
+    aliases = []
     for c in cases:
         o, info = run_prop_impl(c)
+        aliases.append(c.pop("_alias", []))
         impl.append(canon_impl_obs(o))
         infos.append(info)
         for key, val in (("style", c["style"]), ("cte", c["cte"]), ("tol", c["tol"]),
@@ -314,6 +328,13 @@ def propagator_part(ctx, rng):
                        nontrivial=len(c["qs"]) >= 2)
         ctx.cov["traces_validated_against_impl"] += 1
         bad = prop_oracle(c, im)
+        al = aliases[i]
+        if al:
+            # invariant: no memo entry (and no answer) is the integrator's working object
+            ctx.violation("propagator.Propagator:aliasing", "memo-entry-shares-integrator-buffer",
+                          "after query %d memo entries %r share memory with the integrator's "
+                          "state buffer: a later step overwrites them" % (al[0][0], al[0][1]),
+                          {"kind": "propagator", "case": c, "aliased": al[:3]})
         if a_src and not bad:
             continue
         first = next((j for j in range(min(len(im), len(msrc)))
@@ -2072,6 +2093,109 @@ def real_propagator_part(ctx, rng):
                                   {"kind": "realprop", "system": kind, "history": h})
 
 
+PROP_METHODS = ["adams", "bdf", "dop853", "lsoda", "vern7", "vern9", "diag"]
+
+
+def run_memo_stability_case(case):
+    """Real Propagator over a real integration method and default data type:
+    every memo entry, re-read after later computations, must still be the
+    matrix first handed out (bitwise) and the one a new object gives; no memo
+    entry / answer may share memory with the integrator's state.
+    Returns list of (signature, what)."""
+    import qutip
+    from qutip import Qobj, QobjEvo, destroy
+    from qutip.solver.propagator import Propagator
+    n = 3
+    H0, H1, C = sys_matrices(n, 1)
+    bad = []
+    with qutip.CoreOptions(default_dtype=case["dtype"]):
+        def mk():
+            H = Qobj(H0) if not case["td"] else QobjEvo([Qobj(H0), [Qobj(H1), _coeff_w]],
+                                                       args={"w": 1})
+            c_ops = [Qobj(C)] if case["me"] else None
+            return Propagator(H, c_ops=c_ops, options={"method": case["method"]},
+                              memoize=case["memoize"])
+        P = mk()
+        first = {}
+        for (t, ts) in case["qs"]:
+            U = P(t / 8.0, ts / 8.0)
+            M = U.full().copy()
+            key = (t, ts)
+            if key in first and not np.array_equal(first[key], M):
+                bad.append(("memo-entry-changed",
+                            "P(%g, %g) asked again returns a matrix %.3g away from the one first "
+                            "returned" % (t / 8.0, ts / 8.0, float(np.abs(first[key] - M).max()))))
+            first.setdefault(key, M)
+            # aliasing invariant
+            st = P.solver._integrator.get_state(copy=False)[1]
+            objs = list(P.props) + [U]
+            for i, q in enumerate(objs):
+                d = q.data
+                same = d is st
+                if not same and type(d).__name__ == "Dense" and type(st).__name__ == "Dense":
+                    same = np.shares_memory(d.as_ndarray(), st.as_ndarray())
+                if not same and type(st).__name__ == "Dense" and type(d).__name__ == "Dense" \
+                        and st.shape != d.shape:
+                    # column-stacked state of a master-equation propagator
+                    same = np.shares_memory(d.as_ndarray(), st.as_ndarray())
+                if same:
+                    bad.append(("memo-entry-shares-integrator-buffer",
+                                "%s shares memory with the integrator's state after P(%g, %g)" % (
+                                    "the answer" if i == len(objs) - 1 else "memo entry %d" % i,
+                                    t / 8.0, ts / 8.0)))
+                    break
+        # every distinct query against a new object (same method): the first
+        # answers were computed along another path, so tolerance (validation)
+        for (t, ts), M in first.items():
+            ref = mk()(t / 8.0, ts / 8.0).full()
+            if np.abs(ref - M).max() > 1e-5:
+                bad.append(("differs-from-new-object", "P(%g, %g) is %.3g away from a new object" % (
+                    t / 8.0, ts / 8.0, float(np.abs(ref - M).max()))))
+                break
+    seen, out = set(), []
+    for sig, what in bad:
+        if sig not in seen:
+            seen.add(sig)
+            out.append((sig, what))
+    return out
+
+
+def memo_stability_part(ctx, rng):
+    cases = []
+    fixed = [(2, 0), (6, 0), (2, 0), (9, 0), (6, 0), (6, 2), (2, 0), (9, 6), (9, 0)]
+    for method in PROP_METHODS:
+        for dtype in ("CSR", "Dense", "Dia"):
+            for me, td in ((False, True), (True, False)):
+                if method == "diag" and td:
+                    td = False
+                qs = list(fixed)
+                if not ctx.quick:
+                    qs += [(rng.randint(0, 12), rng.choice([0, 0, rng.randint(0, 6)]))
+                           for _ in range(8)]
+                    qs = [(max(a, b), min(a, b)) for a, b in qs]
+                cases.append({"method": method, "dtype": dtype, "me": me, "td": td,
+                              "memoize": rng.choice([3, 10]) if not ctx.quick else 10, "qs": qs})
+    stats = {"cases": 0, "ok": 0, "violations": 0}
+    for c in cases:
+        stats["cases"] += 1
+        ctx.count_case(("memostab", json.dumps(c)), nontrivial=True)
+        try:
+            bad = run_memo_stability_case(c)
+        except Exception as e:
+            bad = [("raises:" + type(e).__name__, str(e)[:100])]
+        if not bad:
+            stats["ok"] += 1
+            continue
+        stats["violations"] += 1
+        for sig, what in bad[:2]:
+            ctx.violation("propagator.Propagator:memo-stability", sig,
+                          "Propagator(method=%s, default_dtype=%s, %s): %s" % (
+                              c["method"], c["dtype"], "master equation" if c["me"] else "unitary",
+                              what), {"kind": "memostab", "case": c})
+    ctx.cov["memo_stability_real_methods"] = stats
+    ctx.sample({"memo_stability_case": cases[0]})
+
+
 # ---------------------------------------------------------------------- run
 def run(ctx):
     rng = random.Random(ctx.seed * 7919 + 11)
@@ -2108,6 +2232,7 @@ def run(ctx):
         for _ in range(400):
             c = gen_prop_case(r2)
             o, _i = run_prop_impl(c)
+            c.pop("_alias", None)
             bad = prop_oracle(c, canon_impl_obs(o))
             if bad:
                 ctx.violation("propagator.Propagator", bad[0][1].split("=")[0], bad[0][1],
@@ -2117,6 +2242,7 @@ def run(ctx):
     vlib.standard_proof_step(ctx, ["Props/C11.vo"], ["Props/C11.v"], search)
     propagator_part(ctx, rng)
     real_propagator_part(ctx, rng)
+    memo_stability_part(ctx, rng)
     rk_part(ctx, rng)
     solver_reuse_part(ctx, rng)
     interleave_part(ctx, rng)
@@ -2138,7 +2264,10 @@ def replay(ctx, payload):
     if kind == "propagator":
         c = d["case"]
         o, _ = run_prop_impl(c)
+        al = c.pop("_alias", [])
         bad = prop_oracle(c, canon_impl_obs(o))
+        if al and not bad:
+            bad = [(al[0][0], "memo entries %r share memory with the integrator buffer" % (al[0][1],))]
         if bad:
             ctx.violation(payload["site"], payload["signature"], bad[0][1],
                           {"kind": "propagator", "case": c, "wrong": bad[:3]})
@@ -2151,6 +2280,11 @@ def replay(ctx, payload):
         r = run_reuse_case(d["spec"], hist, pr, inter)
         if r is not None and r[0] != "skip":
             ctx.violation(r[0], r[1], r[2], d)
+    elif kind == "memostab":
+        c = d["case"]
+        c["qs"] = [tuple(q) for q in c["qs"]]
+        for sig, what in run_memo_stability_case(c):
+            ctx.violation(payload["site"], sig, what, d)
     elif kind == "interleave":
         ops = [tuple(tuple(x) if isinstance(x, list) else x for x in o) for o in d["ops"]]
         suffix, wj = il_reference_suffix(ops)
